@@ -283,13 +283,32 @@ def v11(rep, rule="V11"):
         if "body" not in fn or not fn.get("file", "").endswith("btree.c"):
             continue
         runs = {}
+        par = common.parents(fn["body"])
         for lp in walk(fn["body"]):
-            if lp["k"] != "ForStmt":
+            if lp["k"] not in ("ForStmt", "WhileStmt"):
                 continue
-            init, cond, inc, body = strip(lp["c"][0]), strip(lp["c"][-3]) if len(lp["c"]) >= 4 else None, None, lp["c"][-1]
-            # ForStmt children: init, (condvar), cond, inc, body
-            kids_ = lp["c"]
-            init, cond, inc, body = strip(kids_[0]), strip(kids_[-3]), strip(kids_[-2]), kids_[-1]
+            if lp["k"] == "ForStmt":
+                # ForStmt children: init, (condvar), cond, inc, body
+                kids_ = lp["c"]
+                init, cond, inc, body = strip(kids_[0]), strip(kids_[-3]), strip(kids_[-2]), kids_[-1]
+            else:
+                # `j = a; while (j < b) { ...; j++; }`: the same loop, header spread out
+                cond, body = strip(lp["c"][0]), lp["c"][-1]
+                init = inc = None
+                jn = (strip(cond["c"][0]) or {}).get("n") if cond is not None and cond["k"] == "BinaryOperator" and cond.get("c") else None
+                if jn is not None:
+                    steps = [y for y in walk(body) if y["k"] == "UnaryOperator" and y["op"] in ("++", "post++", "--", "post--") and
+                             (strip(y["c"][0]) or {}).get("n") == jn]
+                    if len(steps) == 1:
+                        inc = steps[0]
+                    p_ = par.get(lp["id"])
+                    if p_ is not None and p_["k"] == "CompoundStmt":
+                        sts_ = [x for x in p_["c"] if x is not None]
+                        k_ = next(i for i, x in enumerate(sts_) if x is lp)
+                        if k_ > 0:
+                            prev = strip(sts_[k_ - 1])
+                            if prev is not None and prev["k"] == "BinaryOperator" and prev["op"] == "=" and (strip(prev["c"][0]) or {}).get("n") == jn:
+                                init = prev
             copies = []
             for x in walk(body):
                 if x["k"] == "BinaryOperator" and x["op"] == "=":
